@@ -654,6 +654,24 @@ def o_memory(w, tr):
             out.append(('C11:upload-buffers',
                         f'{mx} bytes read from user streams and not yet sent; limit '
                         f'({cfg.max_in_memory_upload_chunks}+{cfg.max_submission_concurrency})*{per}={limit}'))
+    # pending destination writes: IO-stage occupancy and chunk size
+    END2 = 10 ** 9
+    io_ev = []
+    ends = {e[3]['fut']: e[0] for e in tr.ev('ex.end') if e[3]['ex'] == 'ex2'}
+    for e in tr.ev('ex.submit'):
+        if e[3]['ex'] == 'ex2' and 'Write' in e[3]['task']:
+            io_ev += [(e[0], 1), (ends.get(e[3]['fut'], END2), -1)]
+    if io_ev:
+        m = _intervals_max(io_ev)
+        w.sched.user['max_pending_io_writes'] = m
+        if m > cfg.max_io_queue_size:
+            out.append(('C11:io-queue', f'{m} destination writes pending in the IO stage, max_io_queue_size={cfg.max_io_queue_size}'))
+    for info in w.transfers:
+        st = info.get('stream')
+        if info['op'] == 'download' and st is not None and hasattr(st, 'writes'):
+            big = [len(d) for _, d in st.writes if len(d) > cfg.io_chunksize]
+            if big:
+                out.append(('C11:io-chunk-size', f'transfer {info["idx"]}: a write of {big[0]} bytes, io_chunksize={cfg.io_chunksize}'))
     # downloads to non-seekable: window
     for info in w.transfers:
         t = info['t']
